@@ -28,7 +28,7 @@ CONV = {"convolution", "conv2d", "conv_transpose2d", "_convolution", "convolutio
         "mkldnn_convolution", "slow_conv2d_forward", "_slow_conv2d_forward", "thnn_conv2d", "_conv_depthwise2d",
         "conv_depthwise3d", "slow_conv_transpose2d", "slow_conv_dilated2d"}
 ADDSUB = {"add", "sub", "add_", "sub_", "rsub"}
-MUL = {"mul", "mul_"}
+MUL = {"mul", "mul_", "mm", "bmm", "matmul", "dot", "mv", "einsum", "tensordot", "outer"}   # exactly one input-dependent operand
 DIV = {"div", "div_", "true_divide"}
 PYSCALAR = {"_local_scalar_dense", "item", "is_nonzero", "equal", "allclose", "is_same_size"}
 INPLACE_DST = {"add_", "sub_", "mul_", "div_", "copy_", "index_add_", "zero_", "fill_", "index_put_", "_index_put_impl_",
@@ -66,7 +66,18 @@ def category(name, args):
         return "fill_zero" if (len(args) > 1 and not isinstance(args[1], torch.Tensor) and args[1] == 0) else "nonlinear"
     if name in ("pow", "sqrt", "abs", "relu", "exp", "log", "sigmoid", "tanh", "gt", "lt", "ge", "le", "eq", "ne",
                 "where", "maximum", "minimum", "clamp", "rsqrt", "reciprocal", "sign", "max", "min", "argmax", "sort",
-                "pow_", "sqrt_", "square", "norm", "atan2"):
+                "pow_", "sqrt_", "square", "norm", "atan2", "amax", "amin", "aminmax", "max_pool2d", "max_pool2d_with_indices",
+                "std", "var", "var_mean", "std_mean", "floor", "ceil", "round", "trunc", "frac", "isnan", "isinf", "isfinite",
+                "nan_to_num", "nan_to_num_", "clamp_", "clamp_min", "clamp_max", "clamp_min_", "clamp_max_", "clip", "threshold",
+                "threshold_", "softmax", "_softmax", "log_softmax", "_log_softmax", "hardtanh", "sgn", "logical_and", "logical_or",
+                "logical_not", "logical_xor", "nonzero", "masked_select", "topk", "median", "nanmedian", "kthvalue", "mode",
+                "prod", "cumprod", "linalg_vector_norm", "frobenius_norm", "erf", "erfc", "sin", "cos", "tan", "asin", "acos",
+                "atan", "sinh", "cosh", "log1p", "expm1", "log2", "log10", "exp2", "hypot", "fmod", "remainder", "floor_divide",
+                "heaviside", "gelu", "silu", "leaky_relu", "elu", "softplus", "hardshrink", "softshrink", "dropout",
+                "native_dropout", "bernoulli", "bernoulli_", "normal_", "uniform_", "rand_like", "randn_like", "any", "all",
+                "count_nonzero", "unique", "_unique2", "argmin", "argsort", "searchsorted", "bucketize", "histc", "bincount",
+                "isclose", "relu_", "abs_", "exp_", "log_", "sigmoid_", "tanh_", "round_", "floor_", "ceil_", "trunc_",
+                "masked_fill", "masked_fill_", "masked_scatter", "renorm", "cdist", "addcdiv", "addcmul", "lerp"):
         return "nonlinear"
     return "unknown:" + name
 
